@@ -7,6 +7,7 @@
 -/
 import LLTD.Props.C02
 import LLTD.Lemmas.TranslatedWireEq
+import LLTD.Props.C03T
 
 namespace LLTD.C02T
 open LLTD LLTD.Spec LLTD.TWEq LLTD.CSem
@@ -35,5 +36,27 @@ theorem compare_translated (env : TW.Env) (a0 a1 a2 a3 a4 a5 b0 b1 b2 b3 b4 b5 :
     · have : ¬ ((x : Int) = (y : Int)) := by omega
       simp [h, this]
   simp only [key]
+
+/-- **end to end for the Hello**: what the header and property writers, as translated from the C text and composed as `answerHello`
+    composes them, leave in a zeroed buffer - cut at the final offset, i.e. exactly the bytes handed to the port - is accepted by the
+    INDEPENDENT decoder as a well-formed frame from this station within the MTU -/
+theorem hello_translated_wellFormed (base : TW.Env) (c : Cfg) (g : Glob) (hc : CfgOk c) (hmac : c.failMac = false) (tos gen : Nat)
+    (cur app : List Nat) (k : Nat)
+    (htos : tos < 256) (hgen : gen < 65536) (hcur : cur.length = 6) (happ : app.length = 6)
+    (hif : c.iftype < u32) (hsp : c.speed < u32) (hm : c.mode < 256) (hr : c.rate < 65536) (hlo : -128 ≤ c.rssi) (hhi : c.rssi ≤ 127)
+    (hb4 : isBytes c.ipv4) (hh : g.host.length < 18446744073709551616) (hl : c.ssid.length < 18446744073709551616)
+    (he : TChain.EnvOk base) (hk : (helloTlvs c g).length ≤ k) :
+    let env := envOf c g base
+    let b1 := TW.setLltdHeader env (List.replicate 46 0 ++ List.replicate k 0) c.ourMac bcast 0 X.opHello tos
+    let b2 := TW.setHelloHeader env b1.buffer b1.ret app cur gen
+    let b3 := TChain.helloChain env c.wifi b2.buffer (b1.ret + b2.ret)
+    wellFormed c.mac c.mtu (b3.1.take (b1.ret + b2.ret + b3.2)) = true := by
+  intro env b1 b2 b3
+  have h := C03T.hello_frame_translated base c g hc tos gen cur app k htos hgen hcur happ hif hsp hm hr hlo hhi hb4 hh hl he hk
+  simp only at h
+  show wellFormed c.mac c.mtu ((TChain.helloChain env c.wifi b2.buffer (b1.ret + b2.ret)).1.take
+    (b1.ret + b2.ret + (TChain.helloChain env c.wifi b2.buffer (b1.ret + b2.ret)).2)) = true
+  rw [h.1, h.2, List.take_left]
+  exact C02.hello_wellFormed c g gen tos cur app hc hmac hcur happ
 
 end LLTD.C02T
